@@ -143,7 +143,7 @@ Proof.
   destruct HB as (new & HE & B0 & B1 & B2 & B3 & B4 & B5 & B6 & B7).
   apply next_nameserver_ok in HN.
   destruct HN as (N1 & N2 & N3 & N4 & N5 & N6 & N7 & N8 & N9 & N10 & _).
-  set (ev := mk_event s1 ns tcp backoff T e ob) in *.
+  set (ev := mk_event s1 ns tcp backoff T e ob clock2) in *.
   assert (HNR: never_reasked (new ++ [ev])).
   { apply FOP_snoc; auto. apply Forall_forall. intros a Ha Hd. simpl. intro HX.
     apply (B6 a Ha Hd). rewrite <- HX. exact C4. }
@@ -215,7 +215,7 @@ Proof.
     destruct HB as (new & HE & B0 & B1 & B2 & B3 & B4 & B5 & B6 & B7).
     apply next_nameserver_ok in HN.
     destruct HN as (N1 & N2 & N3 & N4 & N5 & N6 & N7 & N8 & N9 & N10 & _).
-    set (ev := mk_event s1 ns tcp backoff T e ob) in *.
+    set (ev := mk_event s1 ns tcp backoff T e ob clock2) in *.
     assert (HNR: never_reasked (new ++ [ev])).
     { apply FOP_snoc; auto. apply Forall_forall. intros a Ha Hd. simpl. intro HX.
       apply (B6 a Ha Hd). rewrite <- HX. exact C4. }
@@ -251,16 +251,16 @@ Qed.
 
 Hypothesis Hdur : forall i, 0 <= o_dur (sc i).
 
-Lemma tcinv_new_event : forall old s e s1 ns tcp backoff T ob new,
+Lemma tcinv_new_event : forall old s e s1 ns tcp backoff T ob clock2 new,
   e_trace e = old ++ new -> adjacent tc_retry_rel new ->
   (forall a, last_opt new = Some a -> ev_trunc_udp a = true ->
        s_retry_with_tcp s = true /\
        (exists ns, s_nameserver s = Some ns /\ sv_id ns = ev_server a /\ sv_maxsize ns = false) /\
        s_qname s = ev_qname a /\ start <= e_clock e /\ e_clock e - start < c_lifetime c) ->
   next_nameserver c s = NSOk s1 ns tcp backoff ->
-  adjacent tc_retry_rel (new ++ [mk_event s1 ns tcp backoff T e ob]).
+  adjacent tc_retry_rel (new ++ [mk_event s1 ns tcp backoff T e ob clock2]).
 Proof.
-  intros old s e s1 ns tcp backoff T ob new HE HA HL HN.
+  intros old s e s1 ns tcp backoff T ob clock2 new HE HA HL HN.
   apply adjacent_snoc; auto. intros a La Ta.
   destruct (HL a La Ta) as (R & (n1 & E1 & E2 & E3) & Q & _).
   apply next_nameserver_ok in HN.
@@ -277,13 +277,13 @@ Proof.
   intros old s e s' e' (I1 & I2 & I3 & I4 & I5) (new & HE & HA & HL) H.
   apply step_inl in H.
   destruct H as (s1 & ns & tcp & backoff & T & ob & clock2 & HN & HT & HO & HE' & HQ).
-  pose proof (tcinv_new_event old s e s1 ns tcp backoff T ob new HE HA HL HN) as HA'.
+  pose proof (tcinv_new_event old s e s1 ns tcp backoff T ob clock2 new HE HA HL HN) as HA'.
   apply next_nameserver_ok in HN.
   destruct HN as (N1 & N2 & N3 & N4 & N5 & N6 & N7 & N8 & N9 & N10 & HN).
   assert (HB: 0 <= backoff) by (destruct HN as [HN|[HN|HN]]; lia).
   destruct (compute_timeout_inl _ _ _ _ _ HT ltac:(lia)) as (T1 & T2 & T3).
   destruct (observe_clock _ _ _ _ _ _ HO (Hdur _)) as (O1 & O2).
-  set (ev := mk_event s1 ns tcp backoff T e ob) in *.
+  set (ev := mk_event s1 ns tcp backoff T e ob clock2) in *.
   subst e'. exists (new ++ [ev]). simpl. split; [rewrite HE, app_assoc; reflexivity|]. split; [exact HA'|].
   intros a La Ta. rewrite last_opt_snoc in La. inversion La; subst a.
   unfold ev_trunc_udp in Ta. simpl in Ta. apply andb_true_iff in Ta. destruct Ta as [Ta1 Ta2].
@@ -329,8 +329,8 @@ Proof.
       destruct (e_clock e - start >=? c_lifetime c) eqn:E2; [lia|discriminate].
     + destruct HN as (R1 & _). congruence.
     + destruct HN as (R1 & _). congruence.
-  - pose proof (tcinv_new_event old s e s1 ns tcp backoff T ob new HE HA HL HN) as HA'.
-    subst e'. simpl. exists (new ++ [mk_event s1 ns tcp backoff T e ob]).
+  - pose proof (tcinv_new_event old s e s1 ns tcp backoff T ob clock2 new HE HA HL HN) as HA'.
+    subst e'. simpl. exists (new ++ [mk_event s1 ns tcp backoff T e ob clock2]).
     split; [rewrite HE, app_assoc; reflexivity|]. split; [exact HA'|].
     intros a La Ta. rewrite last_opt_snoc in La. inversion La; subst a.
     unfold ev_trunc_udp in Ta. simpl in Ta. apply andb_true_iff in Ta. destruct Ta as [Ta1 Ta2].
